@@ -263,6 +263,17 @@ def run_sym_tie(pid, symfile, workdir, timeout=240, defer=(), workers=16):
     # a function that failed at one arity is not tied
     failed_names = {fn for fn, _ in res["failed"]}
     res["tied"] = [fn for fn in res["tied"] if fn not in failed_names]
+    # one generated lemma, as written, for the evidence file
+    for d, files in recs:
+        if files and len(d["paths"]) > 1 and not bad.get(id(d)):
+            try:
+                txt = open(files[-1]).read()
+                m = re.search(r"(Lemma .*?Qed\.)", txt, flags=re.S)
+                if m and len(m.group(1)) < 3000:
+                    res["sample_lemma"] = m.group(1)
+                    break
+            except OSError:
+                pass
     res["wall"] = round(time.time() - t0, 1)
     return res
 
